@@ -327,7 +327,24 @@ func Run(r *ev.Run) {
 		if skipFirst {
 			opts = append(opts, zap.AddCallerSkip(k))
 		}
-		l := zap.New(core, opts...)
+		var l *zap.Logger
+		if g.P(1, 5) {
+			// built from a Config: options given to Build come after the Config's own (they win)
+			cfg := zap.NewProductionConfig()
+			if g.Bool() {
+				cfg = zap.NewDevelopmentConfig()
+			}
+			bl, err := cfg.Build(append(append([]zap.Option{}, opts...), zap.WrapCore(func(zapcore.Core) zapcore.Core { return core }))...)
+			if err != nil {
+				r.Inconclusive(id + ": Config.Build failed: " + err.Error())
+				continue
+			}
+			l = bl
+			words = append(words, "Config.Build(options)")
+			r.Count("loggers_built_from_config", 1)
+		} else {
+			l = zap.New(core, opts...)
+		}
 		l = applyChain(l, g, &words)
 		if !skipFirst {
 			if g.Bool() {
@@ -518,14 +535,17 @@ func slogCases(r *ev.Run) {
 		callerOn := !g.P(1, 5)
 		extra := rng.Pick(g, []int{0, 0, 3, 58, 59, 60, 61, 62, 63, 64, 65, 128, 300})
 		d := g.Intn(4)
+		// a caller skip for the stack trace (the caller itself comes from the record): also handlers
+		// derived with With / WithGroup must keep it
+		skip := g.Intn(d + 1)
 		core, logs := observer.New(zapcore.DebugLevel)
-		h := zapslog.NewHandler(core, zapslog.WithCaller(callerOn), zapslog.AddStacktraceAt(stackAt))
+		h := zapslog.NewHandler(core, zapslog.WithCaller(callerOn), zapslog.AddStacktraceAt(stackAt), zapslog.WithCallerSkip(skip))
 		msg := fmt.Sprintf("s%d", i)
 		lastMark = nil
 		pn := ev.Guard(func() { deep(extra, func() { wrap(d, func() { f.call(h, lv, msg) }) }) })
 		r.Eval(1)
 		r.SetAdd("methods", f.name)
-		r.Distinct(fmt.Sprintf("%s|%d|%d|%v|%d", f.name, lv, stackAt, callerOn, extra))
+		r.Distinct(fmt.Sprintf("%s|%d|%d|%v|%d|%d", f.name, lv, stackAt, callerOn, extra, skip))
 		bad := func(class, format string, a ...any) {
 			r.Violate(ev.Violation{Case: id, Class: class, Msg: fmt.Sprintf("%s (level %d, stack at %d, depth+%d): ", f.name, lv, stackAt, extra) + fmt.Sprintf(format, a...)})
 		}
@@ -556,9 +576,9 @@ func slogCases(r *ev.Run) {
 			bad("slog-stack-presence", "stack attached=%v", e.Stack != "")
 			continue
 		}
-		if wantStack && !stackOK(e.Stack, tr, 0) {
+		if wantStack && !stackOK(e.Stack, tr, skip) {
 			got := strings.Split(e.Stack, "\n")
-			bad("slog-stack", "stack trace (%d frames) does not start at the call site slog recorded / is not the complete chain (%d frames): got first %q want %q", len(got)/2, len(tr), first2(got), want.Func)
+			bad("slog-stack", "stack trace (%d frames) does not start %d frame(s) above the call site slog recorded (WithCallerSkip(%d)) / is not the complete chain (%d frames): got first %q want %q", len(got)/2, skip, skip, len(tr), first2(got), tr[skip].Func)
 		}
 	}
 }
